@@ -22,7 +22,7 @@ from .core import Check, run_tlc
 
 LEVEL = "model_checking"
 
-CLAUSES = ["C14.lossy", "C14.wrong_variant_with_discriminator", "C14.unmapped_guess", "C14.retry_after_mapped_failure", "C14.error_on_conforming"]
+CLAUSES = ["C14.lossy", "C14.wrong_variant_with_discriminator", "C14.unmapped_guess", "C14.retry_after_mapped_failure", "C14.error_on_conforming", "C14.not_a_variant"]
 NAMES = ["Alpha", "Beta", "Gamma", "Delta"]
 FIELDS = ["a", "b", "c"]
 
@@ -118,6 +118,7 @@ def judge(chk: Check, traces: list[dict], label: str, via: str) -> None:
         chk.count(v["nobs"])
         chk.cov["pairs_judged_on_real_code"] = chk.cov.get("pairs_judged_on_real_code", 0) + len(t["cases"])
         chk.cov[f"observations_{via}"] = chk.cov.get(f"observations_{via}", 0) + v["nobs"]
+        chk.clause("C14.not_a_variant", v["nobs"])
         chk.clause("C14.lossy", v["n_value"])
         chk.clause("C14.error_on_conforming", v["n_value"])
         chk.clause("C14.wrong_variant_with_discriminator", v["n_disc_value"])
@@ -132,7 +133,7 @@ def judge(chk: Check, traces: list[dict], label: str, via: str) -> None:
             p = t["cases"][f["cid"] - 1]["p"]
             o = next(o for o in t["obs"] if o["cid"] == f["cid"] and o["pos"] == f["pos"])
             chk.fail(f["clause"], loc, {"u": u, "payload": p, "pos": f["pos"], "via": via}, f"observed {json.dumps({k: o[k] for k in ('out', 'chosen', 'ckind', 'ekind', 'reenc')})[:400]}")
-        if v["drift"]:
+        if v["drift"] and not t.get("_nodrift"):
             ndrift += len(v["drift"])
             if chk.cov.get("drift_reported", 0) < 3:
                 chk.cov["drift_reported"] = chk.cov.get("drift_reported", 0) + 1
@@ -265,7 +266,10 @@ def replay_generated(chk: Check, picked: list[tuple[str, dict]], label: str) -> 
             if chk.cov["generated_not_observable"] <= 2:
                 chk.note_drift(f"emitted union package not observable ({ob['observer_error']['type']}: {ob['observer_error']['msg'][:160]}) for {json.dumps(d['u'])[:200]}")
             continue
-        traces.append({"id": j["id"], "u": d["u"], "cases": [{"cid": i + 1, "p": c["p"]} for i, c in enumerate(d["cases"])], "obs": ob["res"], "_alias": ob["alias_repr"]})
+        # the generator renders a typed inline map as dict[str, Any] (the fallback type), so the emitted alias is not the
+        # union ImplChoose is evaluated on: the property-level judgement is unaffected, the model comparison is skipped
+        nodrift = any(v["k"] == "map" for v in d["u"]["vars"])
+        traces.append({"id": j["id"], "u": d["u"], "cases": [{"cid": i + 1, "p": c["p"]} for i, c in enumerate(d["cases"])], "obs": ob["res"], "_alias": ob["alias_repr"], "_nodrift": nodrift})
     chk.cov["generated_unions"] = chk.cov.get("generated_unions", 0) + len(traces)
     chk.require(len(traces) * 2 >= len(picked), f"only {len(traces)} of {len(picked)} generated union packages were observable")
     if traces:
